@@ -41,6 +41,12 @@ pub fn provider() -> Arc<rustls::crypto::CryptoProvider> {
 }
 
 pub fn load_chain(name: &str) -> Vec<CertificateDer<'static>> {
+    // "a+b": the certificate(s) of a followed by those of b (the key is a's)
+    if let Some((a, b)) = name.split_once('+') {
+        let mut v = load_chain(a);
+        v.extend(load_chain(b));
+        return v;
+    }
     CertificateDer::pem_file_iter(cert_path(name))
         .expect("cert file")
         .map(|c| c.expect("cert"))
@@ -48,6 +54,7 @@ pub fn load_chain(name: &str) -> Vec<CertificateDer<'static>> {
 }
 
 pub fn load_key(name: &str) -> PrivateKeyDer<'static> {
+    let name = name.split_once('+').map(|x| x.0).unwrap_or(name);
     PrivateKeyDer::from_pem_file(key_path(name)).expect("key file")
 }
 
